@@ -67,7 +67,9 @@ func c08Run(r *simkit.Run) {
 		panic(err)
 	}
 
-	isaacstates.VerifInstallStubHandlers(states, func(isaacstates.VerifEvent) (int, isaacstates.StateType) { return isaacstates.VerifOK, isaacstates.StateEmpty })
+	isaacstates.VerifInstallStubHandlers(states, func(isaacstates.VerifEvent) (int, isaacstates.StateType) {
+		return isaacstates.VerifOK, isaacstates.StateEmpty
+	})
 
 	ctx, cancel := context.WithCancel(context.Background())
 	r.OnEnd(cancel)
@@ -211,11 +213,11 @@ func c08Run(r *simkit.Run) {
 
 func init() {
 	simkit.Register(&simkit.Harness{
-		ID:   "C08",
-		Run:  c08Run,
-		Real: []string{"isaacstates.States.mimicBallotFunc / mimicBallot", "isaacstates.DefaultBallotBroadcaster (Broadcast, set)", "isaacstates.Ballotbox (newBallotf wiring)", "baseBallotHandler.makeINITBallot / makeACCEPTBallot and ballotBroadcastTimers (through a verif-tagged accessor)", "isaacdatabase.TempPool ballot pool", "util.SimpleTimers on the fake clock"},
-		Stub: []string{"state handlers are the C09 stubs (the node is put into SYNCING with consensus allowed)", "proposal selection returns a fixed proposal", "transport: the broadcast function records what leaves the node; the harness never signs for the local node"},
-		Rule: "each run draws a suffrage of 2-5, one or two stages (INIT, ACCEPT of h33r0), whether the peers (all in the sync source pool) vote for different facts, and whether a consensus handler is still in flight making the local INIT/ACCEPT ballot itself; peers deliver concurrently (with duplicates), the re-broadcast timers fire on the fake clock. Over everything the broadcast function saw: per (stage point, suffrage-confirm flag) at most one distinct locally signed ballot fact. distinct = event-log hash",
+		ID:          "C08",
+		Run:         c08Run,
+		Real:        []string{"isaacstates.States.mimicBallotFunc / mimicBallot", "isaacstates.DefaultBallotBroadcaster (Broadcast, set)", "isaacstates.Ballotbox (newBallotf wiring)", "baseBallotHandler.makeINITBallot / makeACCEPTBallot and ballotBroadcastTimers (through a verif-tagged accessor)", "isaacdatabase.TempPool ballot pool", "util.SimpleTimers on the fake clock"},
+		Stub:        []string{"state handlers are the C09 stubs (the node is put into SYNCING with consensus allowed)", "proposal selection returns a fixed proposal", "transport: the broadcast function records what leaves the node; the harness never signs for the local node"},
+		Rule:        "each run draws a suffrage of 2-5, one or two stages (INIT, ACCEPT of h33r0), whether the peers (all in the sync source pool) vote for different facts, and whether a consensus handler is still in flight making the local INIT/ACCEPT ballot itself; peers deliver concurrently (with duplicates), the re-broadcast timers fire on the fake clock. Over everything the broadcast function saw: per (stage point, suffrage-confirm flag) at most one distinct locally signed ballot fact. distinct = event-log hash",
 		Assumptions: []string{"crash/restart of the node is not part of this harness yet"},
 	})
 }
